@@ -352,9 +352,11 @@ pub fn check_c06(sc: &H1Scenario, out: &H1Out) -> Vec<Violation> {
                 let served2 = finals.len() >= 2 && finals[1].status == 200;
                 match second_started {
                     Some(s) if s + RES + EPS < deadline => {
-                        // data arrived before the window opened: the keep-alive timer must be disarmed
-                        let complete_in_time = second_at.is_some();
-                        if complete_in_time && !served2 && sc.cfg.req_timeout_ms == 0 {
+                        // the request was completely there before the window opened (a head that
+                        // only *started* in time may be cut off by the keep-alive timer: bytes that
+                        // were already buffered when the connection went idle do not disarm it)
+                        let complete_in_time = second_at.map(|c| c + RES + EPS < deadline).unwrap_or(false);
+                        if complete_in_time && !served2 {
                             vs.push(Violation::new(
                                 "C06.keepalive",
                                 "in-time-request-not-served",
